@@ -4,6 +4,7 @@ package props
 
 import (
 	gosql "database/sql"
+	"encoding/binary"
 	"fmt"
 	"math/rand"
 	"os"
@@ -234,6 +235,19 @@ func c08History(run *hx.Run, o *hx.Oracle, dir string, h int, steps int) {
 	if err := o.Exec(path, init...); err != nil {
 		run.Inconclusive("history db: " + err.Error())
 		return
+	}
+	if h%2 == 1 {
+		// the file change counter is a 32-bit number that wraps: these histories start a few commits before
+		// 0xFFFFFFFF, so the counter the handle compares goes DOWN during the history (version-valid-for follows,
+		// as SQLite writes it)
+		if f, err := os.OpenFile(path, os.O_RDWR, 0); err == nil {
+			var c [4]byte
+			binary.BigEndian.PutUint32(c[:], 0xFFFFFFFF-uint32(1+h%4))
+			f.WriteAt(c[:], 24)
+			f.WriteAt(c[:], 92)
+			f.Close()
+			run.See("change_counter_start", "a few commits before the 32-bit wrap")
+		}
 	}
 	db, err := sqlittle.Open(path)
 	if err != nil {
